@@ -45,7 +45,7 @@ func (a flatEx) equal(b flatEx) bool {
 }
 
 func flatten(e *bundle.Exchange) flatEx {
-	return flatEx{e.Request.URL.String(), e.Response.Status, gen.NormHeader(e.Response.Header), e.Response.Body}
+	return flatEx{e.Request.URL.String(), e.Response.Status, gen.NormHeader(e.Response.Header), append([]byte{}, e.Response.Body...)}
 }
 
 // expected computes, per URL, the sequence of exchanges a reader must return:
@@ -188,18 +188,26 @@ var readNo int
 func read(r *mon.Run, id string, w []byte) (*bundle.Bundle, error) {
 	var b *bundle.Bundle
 	var err error
-	// the kind of reader rotates: bytes.Reader, one byte per Read, data+EOF in one call, a reader without optional methods
+	// the kind of reader rotates: bytes.Reader, one byte per Read, data+EOF in one call, a reader without optional
+	// methods, a bytes.Buffer. The memory the input was read from belongs to the caller, who reuses it as soon as
+	// Read has returned: it is overwritten before the result is looked at.
 	readNo++
-	var src io.Reader = bytes.NewReader(w)
-	switch readNo % 4 {
+	mem := append([]byte{}, w...)
+	var src io.Reader = bytes.NewReader(mem)
+	switch readNo % 5 {
 	case 1:
-		src = iotest.OneByteReader(bytes.NewReader(w))
+		src = iotest.OneByteReader(bytes.NewReader(mem))
 	case 2:
-		src = iotest.DataErrReader(bytes.NewReader(w))
+		src = iotest.DataErrReader(bytes.NewReader(mem))
 	case 3:
-		src = struct{ io.Reader }{bytes.NewReader(w)}
+		src = struct{ io.Reader }{bytes.NewReader(mem)}
+	case 4:
+		src = bytes.NewBuffer(mem)
 	}
 	p, pv := r.Call(id, w, func() { b, err = bundle.Read(src) })
+	for i := range mem {
+		mem[i] = 0xCC
+	}
 	if p {
 		return nil, fmt.Errorf("panic: %v", pv)
 	}
@@ -244,6 +252,7 @@ func run(r *mon.Run) {
 			det["problem"] = what
 			r.Violation(key+":"+kind, fmt.Sprintf("bundle #%d (%s): %s", i, d, what), det)
 		}
+		want := expected(b, sets) // (a copy, taken before the writer sees the bundle)
 		w1, err, _ := write(r, fmt.Sprintf("write/%d", i), b)
 		if err != nil {
 			fail("VALID-REFUSED", fmt.Sprintf("the writer refused a valid bundle: %v", err))
@@ -255,7 +264,6 @@ func run(r *mon.Run) {
 			fail("UNREADABLE", fmt.Sprintf("the reader rejects what the writer produced: %v", err))
 			continue
 		}
-		want := expected(b, sets)
 		// the bundle read in the previous iteration was kept: reading this one must not have changed it
 		if prevRead != nil {
 			if d := diffGroups(prevWant, groupImpl(prevRead)); d != "" {
